@@ -143,6 +143,15 @@ type FA struct {
 	conds   map[*ssa.BasicBlock][]Cond
 	reach   map[*ssa.BasicBlock]map[*ssa.BasicBlock]bool
 	atomVal map[string]ssa.Value
+	affine  map[*ssa.Phi]*phiAffine
+}
+
+// phiAffine: a loop counter P = init + step*k (k = number of completed iterations).
+type phiAffine struct {
+	init Lin
+	step int64
+	ok   bool
+	busy bool
 }
 
 var faCache = map[*ssa.Function]*FA{}
@@ -575,6 +584,28 @@ func (a *FA) lin(v ssa.Value, depth int) Lin {
 		if x.Op == token.SUB {
 			return a.lin(x.X, depth+1).Neg()
 		}
+	case *ssa.Phi:
+		// counters that move in lockstep (for src, dst := from, 0; ..; src, dst = src+1, dst+1) are one counter and an
+		// offset: every counter of a loop header is expressed through the first one with the same step
+		if isLoopHeaderPhi(x) && isIntType(x.Type()) {
+			if af := a.affineOf(x); af != nil && af.ok {
+				for _, ins := range x.Block().Instrs {
+					q, isPhi := ins.(*ssa.Phi)
+					if !isPhi {
+						break
+					}
+					if q == x {
+						break // x is the canonical counter itself
+					}
+					if !isIntType(q.Type()) || !types.Identical(q.Type(), x.Type()) {
+						continue
+					}
+					if aq := a.affineOf(q); aq != nil && aq.ok && aq.step == af.step {
+						return linAtom(a.VN(q)).Add(af.init.Sub(aq.init))
+					}
+				}
+			}
+		}
 	case *ssa.Call:
 		// len(x[lo:hi]) = hi - lo, len(x[lo:]) = len(x) - lo   (slices and strings; a helper that returns a sub-slice
 		// and is measured by its caller must read like the arithmetic on the lengths it stands for)
@@ -788,6 +819,52 @@ func (a *FA) LinAlts(v ssa.Value, cap int) []Lin {
 	return out
 }
 
+// affineOf: initial value and constant step of a loop-header phi (all back edges add the same constant, all entry
+// edges agree on the initial value).
+func (a *FA) affineOf(p *ssa.Phi) *phiAffine {
+	if a.affine == nil {
+		a.affine = map[*ssa.Phi]*phiAffine{}
+	}
+	if af, ok := a.affine[p]; ok {
+		if af.busy {
+			return nil
+		}
+		return af
+	}
+	af := &phiAffine{busy: true}
+	a.affine[p] = af
+	pl := linAtom(a.VN(p))
+	var init *Lin
+	okAll, haveStep := true, false
+	for i, e := range p.Edges {
+		el := a.lin(e, 1)
+		if p.Block().Dominates(p.Block().Preds[i]) { // back edge
+			d := el.Sub(pl)
+			if !d.IsConst() || d.K == 0 || haveStep && d.K != af.step {
+				okAll = false
+				break
+			}
+			af.step, haveStep = d.K, true
+			continue
+		}
+		if _, dep := el.T[a.VN(p)]; dep {
+			okAll = false
+			break
+		}
+		if init != nil && !init.Eq(el) {
+			okAll = false
+			break
+		}
+		e2 := el
+		init = &e2
+	}
+	af.busy = false
+	if okAll && haveStep && init != nil {
+		af.init, af.ok = *init, true
+	}
+	return af
+}
+
 // lenOf: the linear form of len(x) for a slice or string value x that is not itself the operand of a len call.
 func (a *FA) lenOf(x ssa.Value, depth int) Lin {
 	if mk, ok := x.(*ssa.MakeSlice); ok {
@@ -966,9 +1043,27 @@ func (a *FA) boundsFrom(conds []Cond, L Lin) Bounds {
 	// what the value is by construction: a math/bits count lies in [0, width]
 	if v := a.AtomValueOfLin(L); v != nil {
 		if call, ok := v.(*ssa.Call); ok {
-			if wd := bitsCountWidth(calleeName(call.Common())); wd > 0 {
+			name := calleeName(call.Common())
+			if wd := bitsCountWidth(name); wd > 0 {
 				bd.lower(0, "a bit count")
 				bd.upper(wd, "a bit count")
+				// LeadingZeros(x) / TrailingZeros(x) reach the full width exactly for x == 0
+				if strings.Contains(name, "LeadingZeros") || strings.Contains(name, "TrailingZeros") {
+					arg := stripConv(call.Common().Args[0])
+					for _, c := range conds {
+						bo, ok := c.V.(*ssa.BinOp)
+						if !ok || (bo.Op != token.NEQ && bo.Op != token.EQL) {
+							continue
+						}
+						for _, side := range [2][2]ssa.Value{{bo.X, bo.Y}, {bo.Y, bo.X}} {
+							if k, isK := constUint64(stripConv(side[1])); isK && k == 0 && a.VN(stripConv(side[0])) == a.VN(arg) {
+								if (bo.Op == token.NEQ) == c.Pol {
+									bd.upper(wd-1, "the counted word is non-zero")
+								}
+							}
+						}
+					}
+				}
 			}
 		}
 	}
